@@ -133,6 +133,12 @@ def check_offline(ctx: Ctx):
             ok2 = True
     ctx.decide(ok2, "PIPE", site + ":locate", (fi, calls[0]) if calls else fi, "each stored frame goes through locate_droplets(frame, refine=refine, **kwargs)",
                "stored frames are not analysed by locate_droplets(frame, refine=refine, **kwargs)")
+    # every way locate_droplets is applied (direct call or functools.partial) forwards the same settings
+    parts = [c for c in fv.calls(nested=True) if (fv.callee(c) or "").endswith("partial") and c.args and (fv.callee(ast.Call(func=c.args[0], args=[], keywords=[])) or U(c.args[0])).endswith("locate_droplets")]
+    for k_, c in enumerate(parts):
+        okp = has_star(c, "kwargs") and kwarg(c, "refine") is not None and U(kwarg(c, "refine")) == "refine"
+        ctx.decide(okp, "PIPE", f"{site}:partial#{k_}", (fi, c), "the worker function forwards refine=refine and **kwargs like the serial call",
+                   f"`{U(c)[:80]}` does not forward refine=refine and **kwargs: with several processes the stored frames are analysed with other settings than the tracker used")
     # constructor appends each emulsion through append
     init = m.func(f"{EM}.EmulsionTimeCourse.__init__")
     iv = view(m, init)
@@ -202,6 +208,9 @@ def check_length_tracker(ctx: Ctx):
     okj = len(dd) == 1 and {(U(k), U(v)) for k, v in zip(dd[0].keys, dd[0].values)} == {("'times'", "self.times"), ("'length_scales'", "self.length_scales")}
     dump = [c2 for c2 in ast.walk(f.node) if isinstance(c2, ast.Call) and U(c2.func) == "json.dump"]
     ctx.decide(okj and len(dump) == 1, "IOAGREE", f.qualname, f, "finalize dumps {'times': …, 'length_scales': …} as JSON", "finalize does not dump the paired lists under 'times' and 'length_scales'")
+    strict = [c2 for c2 in dump if isinstance(kwarg(c2, "allow_nan"), ast.Constant) and kwarg(c2, "allow_nan").value is False]
+    ctx.decide(not strict, "IOAGREE", f.qualname + ":nan", (f, strict[0]) if strict else f, "recorded not-a-number values can be written",
+               "json.dump(..., allow_nan=False) raises ValueError for the NaN that handle() records when the analysis fails: the tracker then raises at the end of the run")
 
 
 def fv_first(fv):
